@@ -1,7 +1,7 @@
-\* exhaustive: every mesh pair over H = 6, every profile, map back with and without a solver state; snaps from two profiles
-CONSTANTS H = 6  Profiles = {1, 2, 3, 4, 11, 12, 13, 14, 15, 16}  FuelChoices = {0, 1, 3, 5}  SolveProfiles = {2, 3}
-          Jitters = {"none"}  Ops = {"MakeUniform", "Solve", "MapBack", "Snap"}  SnapFlags = {"true", "false", "auto"}
-          SnapProfiles = {2}  MaxLevel = 5
+\* exhaustive (quick): every mesh pair over H = 5, every profile, map back with and without a solver state
+CONSTANTS H = 5  Profiles = {1, 2, 3, 4, 11, 12, 13, 14, 15}  FuelChoices = {3}  SolveProfiles = {2, 3}
+          Jitters = {"none"}  Ops = {"MakeUniform", "Solve", "MapBack"}  SnapFlags = {}
+          SnapProfiles = {}  MaxLevel = 5
 INIT Init
 NEXT Next
 CONSTRAINT Bound
